@@ -262,6 +262,51 @@ def tlc_trace(module, cfg, trace_file, timeout=1200):
             "cmd": "TRACE=%s tlc -workers 1 -config %s %s.tla" % (os.path.relpath(trace_file, ROOT), cfg, module)}
 
 
+def run_apalache(module, obligations):
+    """Unbounded check of a small integer specification: every obligation must end with 'NoError' (else: tool error,
+    the specification itself is wrong)."""
+    d = os.path.join(SPEC, os.path.dirname(module))
+    name = os.path.basename(module)
+    out = []
+    for ob in obligations:
+        outdir = os.path.join(WORK, "apalache", name)
+        shutil.rmtree(outdir, ignore_errors=True)
+        os.makedirs(outdir, exist_ok=True)
+        cmd = ["timeout", "900", "apalache-mc", "check", "--out-dir=" + outdir] + ob["args"] + [name + ".tla"]
+        t0 = time.time()
+        r = subprocess.run(cmd, cwd=d, stdout=subprocess.PIPE, stderr=subprocess.STDOUT, text=True)
+        shutil.rmtree(outdir, ignore_errors=True)
+        shutil.rmtree(os.path.join(d, "tmp"), ignore_errors=True)      # Apalache's scratch directory in the working directory
+        ok = r.returncode == 0 and "The outcome is: NoError" in r.stdout
+        if not ok:
+            raise ToolError("Apalache obligation '%s' of %s not discharged (rc=%s):\n%s" % (ob["name"], module, r.returncode, "\n".join(r.stdout.splitlines()[-12:])))
+        out.append({"module": module, "obligation": ob["name"], "cmd": "apalache-mc check " + " ".join(ob["args"]) + " " + name + ".tla", "outcome": "NoError", "wall_s": round(time.time() - t0, 1)})
+    return out
+
+
+def run_tlaps(module):
+    """Machine-checked proof (tlapm) of the integer lemmas the layout rules rest on; an unproved obligation is a tool error."""
+    d = os.path.join(SPEC, os.path.dirname(module))
+    name = os.path.basename(module)
+    # the lemmas are about the operators of FlatTypes.tla: their definitions must be the same text in both modules
+    def defs(path):
+        txt = open(path).read()
+        return {n: re.sub(r"\s+", " ", re.search(r"^%s\(x, m\)\s*==(.*)$" % n, txt, re.M).group(1)).strip() for n in ("CeilMul", "FloorMul")}
+    if defs(os.path.join(SPEC, "FlatTypes.tla")) != defs(os.path.join(d, name + ".tla")):
+        raise ToolError("CeilMul / FloorMul of %s differ from FlatTypes.tla" % module)
+    cache = os.path.join(WORK, "tlaps")
+    shutil.rmtree(cache, ignore_errors=True)
+    os.makedirs(cache, exist_ok=True)
+    t0 = time.time()
+    r = subprocess.run(["timeout", "900", "tlapm", "--threads", "8", "--cache-dir", cache, name + ".tla"], cwd=d, stdout=subprocess.PIPE, stderr=subprocess.STDOUT, text=True)
+    shutil.rmtree(cache, ignore_errors=True)
+    m = re.search(r"All (\d+) obligations? proved", r.stdout)
+    if r.returncode != 0 or not m:
+        raise ToolError("tlapm did not prove %s (rc=%s):\n%s" % (module, r.returncode, "\n".join(r.stdout.splitlines()[-12:])))
+    return {"module": module, "obligation": "all theorems of the module", "cmd": "tlapm --threads 8 %s.tla" % name, "outcome": "All %s obligations proved" % m.group(1),
+            "obligations": int(m.group(1)), "wall_s": round(time.time() - t0, 1)}
+
+
 def run_trace_step(prop, stp, seed):
     """impl -> spec: a seeded driver exercises the real library, TLC judges the recorded trace."""
     os.makedirs(os.path.join(WORK, "traces"), exist_ok=True)
@@ -462,6 +507,7 @@ def finish(prop, tier, seed, t0, steps, plan, known):
         "outcome_classes": {k: v for k, v in sorted(counts.items()) if not k.startswith("judged.")},
         "known_findings_met": [k["sig"] for k, _ in knownhits.values()],
         "trace_validation": [st["replay"]["trace"] for st in steps if st["replay"].get("trace")],
+        "apalache": [o for st in steps for o in st["replay"].get("apalache", [])],
     }
     write_evidence(prop, tier, seed, "model_checking", coverage, plan.get("assumptions", []), time.time() - t0, nviol)
     return 1 if nviol else 0
@@ -541,6 +587,14 @@ def main(argv):
                 st["replay"] = run_trace_step(prop, stp, seed)
                 tr = st["replay"]["trace"]
                 log("driver %s: %d events, TLC trace validation %s (%d states, %.1fs)" % (stp["driver"], st["replay"]["cases_run"], "accepted" if tr["accepted"] else "REJECTED", tr["states"], tr["wall_s"]))
+            elif stp["type"] == "apalache":
+                obl = run_apalache(stp["module"], stp["obligations"])
+                st["replay"] = {"cases_run": 0, "counts": {"apalache.obligations": len(obl)}, "samples": {}, "sigs": {}, "kept": [], "apalache": obl}
+                log("Apalache %s: %d obligations discharged (%.1fs)" % (stp["module"], len(obl), sum(o["wall_s"] for o in obl)))
+            elif stp["type"] == "tlaps":
+                res = run_tlaps(stp["module"])
+                st["replay"] = {"cases_run": 0, "counts": {"tlaps.obligations": res["obligations"]}, "samples": {}, "sigs": {}, "kept": [], "apalache": [res]}
+                log("TLAPS %s: all %d obligations proved (%.1fs)" % (stp["module"], res["obligations"], res["wall_s"]))
             elif stp["type"] == "negative":
                 st["replay"] = run_negative(prop, stp.get("only_portable", False))
                 log("negative catalog: %d definitions must not compile, %d accepted" % (st["replay"]["cases_run"], len(st["replay"]["sigs"])))
